@@ -106,3 +106,51 @@ func Poke(ptrToStruct interface{}, field string, val interface{}) {
 	}
 	reflect.NewAt(f.Type(), unsafe.Pointer(f.UnsafeAddr())).Elem().Set(reflect.ValueOf(val))
 }
+
+// DeepString renders a value including unexported fields (for comparing opaque library state).
+func DeepString(v interface{}) string {
+	return fmt.Sprintf("%+v", deepValue(reflect.ValueOf(v), 0))
+}
+
+func deepValue(v reflect.Value, depth int) interface{} {
+	if depth > 14 || !v.IsValid() {
+		return nil
+	}
+	switch v.Kind() {
+	case reflect.Ptr, reflect.Interface:
+		if v.IsNil() {
+			return nil
+		}
+		return deepValue(v.Elem(), depth+1)
+	case reflect.Struct:
+		out := map[string]interface{}{}
+		for i := 0; i < v.NumField(); i++ {
+			f := v.Field(i)
+			if !f.CanAddr() {
+				tmp := reflect.New(v.Type()).Elem()
+				tmp.Set(v)
+				f = tmp.Field(i)
+			}
+			f = reflect.NewAt(f.Type(), unsafe.Pointer(f.UnsafeAddr())).Elem()
+			out[v.Type().Field(i).Name] = deepValue(f, depth+1)
+		}
+		return out
+	case reflect.Array, reflect.Slice:
+		if v.Type().Elem().Kind() == reflect.Uint8 {
+			b := make([]byte, v.Len())
+			for i := range b {
+				b[i] = byte(v.Index(i).Uint())
+			}
+			return hex.EncodeToString(b)
+		}
+		out := make([]interface{}, v.Len())
+		for i := range out {
+			out[i] = deepValue(v.Index(i), depth+1)
+		}
+		return out
+	}
+	if v.CanInterface() {
+		return v.Interface()
+	}
+	return fmt.Sprint(v)
+}
